@@ -135,6 +135,11 @@ func (tb *ATable) RegisterPropertyCallback(
 			set = &base.callbacks
 		}
 	default:
+		// A rendering wrapper (or other Table implementation) which embeds
+		// this very table stands for the table itself.
+		if wrapper, ok := owner.(Table); ok && wrapper.Column(0) == tb.columns[0] {
+			return tb.RegisterPropertyCallback(tb, when, target, theNewCallback)
+		}
 		return fmt.Errorf("do not know how to register callbacks for type %T", owner)
 	}
 	if set == nil {
